@@ -5,6 +5,10 @@ from xlcalculator.xlfunctions import xl, func_xltypes
 from . import ast_nodes, xltypes
 
 
+class EvaluationError(RuntimeError):
+    """A cell could not be evaluated; the message names the failing cell."""
+
+
 class EvaluatorContext(ast_nodes.EvalContext):
 
     def __init__(self, evaluator, ref):
@@ -99,8 +103,13 @@ class Evaluator:
         self._in_progress.append(addr)
         try:
             value = cell.formula.ast.eval(context)
+        except EvaluationError:
+            # A cell this one depends on failed and has reported itself;
+            # re-wrapping at every level would nest (and re-escape) the
+            # message once per cell of the dependency chain.
+            raise
         except Exception as err:
-            raise RuntimeError(
+            raise EvaluationError(
                 f"Problem evaluating cell {addr} formula "
                 f"{cell.formula.formula}: {repr(err)}"
             ).with_traceback(sys.exc_info()[2])
